@@ -503,12 +503,17 @@ func cmdCheck(args []string) int {
 					os.WriteFile(r.path, b, 0o644)
 					runs := 1
 					if r.kind == "finding" && r.or.ob.Replay == "stress" {
-						runs = 20
+						runs = 300
 					}
+					deadline := time.Now().Add(90 * time.Second)
 					var outs []string
 					for k := 0; k < runs; k++ {
-						outs, _ = runNative(bin, r.path, r.rf, 60*time.Second)
-						if r.kind != "finding" || !strings.HasPrefix(outs[0], "pass") {
+						tmo := 60 * time.Second
+						if runs > 1 {
+							tmo = 10 * time.Second
+						}
+						outs, _ = runNative(bin, r.path, r.rf, tmo)
+						if r.kind != "finding" || !(strings.HasPrefix(outs[0], "pass") || strings.HasPrefix(outs[0], "assume-failed")) || time.Now().After(deadline) {
 							break
 						}
 					}
